@@ -321,3 +321,54 @@ func cmdEmit(f []string) string {
 	sort.Strings(ts)
 	return "OK name=" + hx(s.Name) + " term=" + strings.Join(ts, ",") + " " + dfaStr(d)
 }
+
+func init() { commands["det"] = cmdDet }
+
+// det <hex spec text> <n>: the whole pipeline (spec.Parse, Spec.DFA, LALR table, golang.Generate) n times in this
+// process; every run's observable result (error text, or the bytes of the six files) must be identical.
+func cmdDet(f []string) string {
+	n, _ := strconv.Atoi(f[1])
+	text := unhx(f[0])
+	results := map[string]int{}
+	var order []string
+	for i := 0; i < n; i++ {
+		res := func() string {
+			s, err := spec.Parse("f", strings.NewReader(text))
+			if err != nil {
+				return "PARSEERR\n" + err.Error()
+			}
+			dir, err := os.MkdirTemp("", "verif-det-")
+			if err != nil {
+				return "TMPERR"
+			}
+			defer os.RemoveAll(dir)
+			var b strings.Builder
+			if err := golang.Generate(ui.NewNop(), &golang.Params{Path: dir, Spec: s}); err != nil {
+				b.WriteString("GENERR\n" + err.Error() + "\n")
+			}
+			ents, _ := os.ReadDir(filepath.Join(dir, s.Name))
+			for _, e := range ents {
+				data, _ := os.ReadFile(filepath.Join(dir, s.Name, e.Name()))
+				b.WriteString("FILE " + e.Name() + "\n")
+				b.Write(data)
+			}
+			return b.String()
+		}()
+		if _, ok := results[res]; !ok {
+			order = append(order, res)
+		}
+		results[res]++
+	}
+	if len(order) == 1 {
+		kind := strings.SplitN(order[0], "\n", 2)[0]
+		return fmt.Sprintf("SAME %d %s %d", n, kind, len(order[0]))
+	}
+	// first differing line of the first two results
+	a, b := strings.Split(order[0], "\n"), strings.Split(order[1], "\n")
+	for i := 0; i < len(a) && i < len(b); i++ {
+		if a[i] != b[i] {
+			return fmt.Sprintf("DIFF %d %s %s", len(order), hx(a[i]), hx(b[i]))
+		}
+	}
+	return fmt.Sprintf("DIFF %d length", len(order))
+}
